@@ -52,7 +52,11 @@ def fixed_archives(rnd):
     d2 = arc.dir_member(b'bare2/', level=2)
     d2.m['time'] = 0
     a4 = [d0, arc.file_member(rnd, '-lh0-', b'a', size=5, level=0, path=b'plain/'), d2, arc.file_member(rnd, '-lh5-', b'b', size=12, level=2, path=b'bare2/')]
-    return [('dir-file-file', a1), ('dir-danglink-file', a2), ('prefix-sibling-dirs', a3), ('dirs-without-metadata', a4)]
+    # sibling directories whose names differ only in letter case: 'Docs/' ends when 'docs/' begins
+    a5 = [arc.dir_member(b'Docs/', level=2, perms=0o40755), arc.file_member(rnd, '-lh0-', b'a', size=4, level=2, path=b'Docs/'),
+          arc.dir_member(b'docs/', level=1, perms=0o40755), arc.file_member(rnd, '-lh5-', b'b', size=9, level=1, path=b'docs/'),
+          arc.file_member(rnd, '-lh0-', b'README', size=3, level=2, path=b'DOCS/')]
+    return [('dir-file-file', a1), ('dir-danglink-file', a2), ('prefix-sibling-dirs', a3), ('dirs-without-metadata', a4), ('case-sibling-dirs', a5)]
 
 
 def random_archive(rnd):
@@ -63,7 +67,7 @@ def random_archive(rnd):
         r = rnd.random()
         parent = rnd.choice(dirs)
         if r < 0.25:
-            d = parent + rnd.choice([b'ab', b'abc', b'x', b'dir']) + (b'%d/' % j if rnd.random() < 0.5 else b'/')
+            d = parent + rnd.choice([b'ab', b'abc', b'x', b'dir', b'AB', b'Dir', b'X']) + (b'%d/' % j if rnd.random() < 0.5 else b'/')
             if d in dirs:
                 d = parent + b'u%d/' % j
             ms.append(arc.dir_member(d, level=rnd.randrange(4), perms=rnd.choice([0o40755, 0o40700, 0o40555, None])))
@@ -266,7 +270,7 @@ def run(ctx):
     multi_part(ctx, b, rnd)
     ctx.cov['exhaustive'] = True
     ctx.cov['exhaustive_subspace'] = ('all legal op sequences of length <= %d over {next, read(1), read(5), read-all, check, extract, extract-named} '
-                                      'on four fixed archives (incl. directories without any metadata) x 3 directory policies' % depth)
+                                      'on five fixed archives (incl. directories without any metadata and sibling directories differing only in letter case) x 3 directory policies' % depth)
     ctx.cov['rule'] = ('histories obey the side conditions (<= 1 decode operation per member, <= 1 extract per entry); exhaustive to the depth '
                        'bound on fixed archives, deferred-link ladders (3-4 dangerous links in every order x {skip, extract, extract to an explicit name} per link), seeded random on generated ones (2-6 members, all methods, nested dirs, safe/dangerous links, 4 '
                        'stream kinds); distinct by (archive, policy, history, stream kind); non-trivial = uses at least two different operations')
